@@ -84,7 +84,8 @@ class Node:
 
 def data():
     return {"f": f, "seq": [1, 0, 2], "one": [3], "aseq": ASeq([1, 0, 2]), "c": True, "d": False,
-            "tree": [Node(1, [Node(2)]), Node(0)]}
+            "tree": [Node(1, [Node(2)]), Node(0)], "layout": "base", "layout2": "mid", "incname": "inc",
+            "incname2": "incf"}
 
 
 AUX = {
@@ -134,8 +135,20 @@ CORE = [
     ("filterblock", "{% filter upper %}u{{ f() }}{% endfilter %}"),
     ("with", "{% with a = f() %}{{ a }}{% endwith %}"),
     ("ifelse", "{% if c %}{{ f() }}{% else %}n{% endif %}{% if d %}{% for i in seq if i %}{{ f() }}{% endfor %}{% endif %}"),
-    ("recursive", "{% for n in tree recursive %}{{ n.v }}{{ f() }}{{ loop(n.c) }}{% endfor %}"),
-    ("recursive_filter", "{% for n in tree if n.v recursive %}{{ n.v }}{{ f() }}{{ loop(n.c) }}{% endfor %}"),
+    ("recursive", "{% for n in tree recursive %}{{ n.v }}{{ f() }}{% if n.c %}{{ loop(n.c) }}{% endif %}{% endfor %}"),
+    ("recursive_filter", "{% for n in tree if n.v recursive %}{{ n.v }}{{ f() }}{% if n.c %}{{ loop(n.c) }}{% endif %}{% endfor %}"),
+    ("recursive_filter_fault_deep", "{% for n in tree if n.v recursive %}<{% if n.c %}{{ loop(n.c) }}{% endif %}{{ f() }}>{% endfor %}"),
+    ("recursive_filter_include", "{% for n in tree if n.v recursive %}{% include 'inc' %}{% if n.c %}{{ loop(n.c) }}{% endif %}{% endfor %}x{{ f() }}"),
+    ("recursive_filter_inblock", "{% block x %}{% for n in tree if n.v recursive %}{{ f() }}{% if n.c %}{{ loop(n.c) }}{% endif %}{{ f() }}{% endfor %}{% endblock %}"),
+    ("recursive_filter_inmacro", "{% macro m(t) %}{% for n in t if n.v recursive %}{{ f() }}{% if n.c %}{{ loop(n.c) }}{% endif %}{% endfor %}{% endmacro %}a{{ m(tree) }}"),
+    ("condextends", "{% if c %}{% extends layout %}{% endif %}x{% block a %}ca{{ f() }}{% endblock %}y"),
+    ("condextends_const", "{% if c %}{% extends 'base' %}{% endif %}{% block b %}cb{{ f() }}{% endblock %}"),
+    ("condextends_false", "{% if d %}{% extends 'base' %}{% endif %}x{% block a %}ca{{ f() }}{% endblock %}y{{ f() }}"),
+    ("condextends_super", "{% if c %}{% extends layout2 %}{% endif %}{% block a %}[{{ super() }}]{{ f() }}{% endblock %}"),
+    ("condextends_filterparent", "{% if c %}{% extends 'basef' %}{% endif %}{% block b %}({{ super() }}){% endblock %}"),
+    ("dynextends", "{% extends layout %}{% block b %}{{ f() }}d{% endblock %}"),
+    ("dyninclude", "a{% include incname %}b{{ f() }}{% include incname2 %}"),
+    ("dyninclude_inloop", "{% for i in seq if i %}{% include incname %}{% endfor %}"),
     ("continue", "{% for i in seq if i %}{% if i == 1 %}{% continue %}{% endif %}{{ f() }}{% endfor %}"),
     ("block_set_include", "{% block x %}{% set y %}{% include 'inc' %}{% endset %}{{ y }}{% endblock %}"),
 ]
@@ -163,8 +176,10 @@ class Gen:
             budget[0] -= 1
             kinds = ["text", "f", "f"]
             if depth > 0:
-                kinds += ["for", "forif", "forif", "forext", "afor", "if", "inc", "incn", "incf", "set", "filter",
+                kinds += ["for", "forif", "forif", "forext", "afor", "if", "inc", "incn", "incf", "incdyn", "set", "filter",
                           "with", "macro", "call", "import"]
+                if not in_loop:
+                    kinds += ["forrec"]
                 if blocks_ok and not in_macro:
                     kinds += ["block", "block", "selfleaf"]
                 if in_loop:
@@ -186,6 +201,12 @@ class Gen:
                 out.append("{% for i in aseq %}" + sub(in_loop=True) + "{% endfor %}")
             elif k == "if":
                 out.append("{% if " + r.choice("cd") + " %}" + sub() + "{% else %}" + sub() + "{% endif %}")
+            elif k == "forrec":
+                # filtered + recursive: awaits before and after the recursion, at every depth
+                out.append("{% for n in tree if n.v recursive %}" + r.choice(["{{ f() }}", "", "{% include 'inc' %}"])
+                           + "{% if n.c %}{{ loop(n.c) }}{% endif %}" + r.choice(["{{ f() }}", "", "b"]) + "{% endfor %}")
+            elif k == "incdyn":
+                out.append("{% include " + r.choice(["incname", "incname2"]) + " %}")
             elif k == "inc":
                 out.append("{% include 'inc' %}")
             elif k == "incn":
@@ -227,7 +248,14 @@ class Gen:
         if shape == "plain":
             return self.body(2)
         parent = {"extends": r.choice(["base", "basef"]), "extends2": "mid"}[shape]
-        out = ["{% extends '" + parent + "' %}"]
+        how = r.choice(["const", "const", "cond", "cond", "dyn", "conddyn"])
+        target = "'" + parent + "'"
+        if how in ("dyn", "conddyn"):
+            target = {"base": "layout", "mid": "layout2", "basef": "'basef'"}[parent]
+        ext = "{% extends " + target + " %}"
+        if how in ("cond", "conddyn"):
+            ext = "{% if c %}" + ext + "{% endif %}" + r.choice(["", "t"])
+        out = [ext]
         for b in r.sample(["a", "b"], r.randint(1, 2)):
             inner = self.body(2)
             if r.random() < 0.6:
@@ -254,7 +282,7 @@ def corpus(tier, seed):
     progs = [{"name": n, "templates": dict(AUX, main=src)} for n, src in CORE]
     rnd = random.Random(seed * 7919 + 36)
     g = Gen(rnd)
-    want = 18 if tier == "quick" else 130
+    want = 12 if tier == "quick" else 130
     tries = 0
     seen = {p["templates"]["main"] for p in progs}
     while want > 0 and tries < 5000:
@@ -397,10 +425,10 @@ def extract_all(ck, progs):
     for p in progs:
         try:
             env = make_env(p["templates"])
-            ex = Extractor(env, p["templates"])
+            ex = Extractor(env, p["templates"], data())
             st = ex.program("main")
         except Unmodelled as e:
-            unmodelled.append({"program": p["name"], "main": p["templates"]["main"], "why": str(e)})
+            unmodelled.append({"program": p["name"], "main": p["templates"]["main"], "why": str(e), "_prog": p})
             continue
         structures.append(st)
         kept.append(p)
@@ -423,12 +451,13 @@ def run(ck):
     # known findings shipped with this check (merged into known_findings.json by the maintainer)
     fd = core.VERIF / "findings.d" / "C36.json"
     if fd.exists():
-        have = {k["id"] for k in ck._known}
+        have = {k["id"] for k in core.load_known()}
         ck._known += [k for k in json.loads(fd.read_text())
                       if k["property"] == PID and k.get("status") == "open" and k["id"] not in have]
 
     progs = corpus(ck.tier, ck.seed)
     progs, structures, unmodelled = extract_all(ck, progs)
+    unmodelled_progs = [u.pop("_prog") for u in unmodelled]
     if unmodelled:
         ck.extra.setdefault("drift", []).append({"unmodelled_generated_code": unmodelled[:10], "count": len(unmodelled)})
         print(f"SPEC-DRIFT: {len(unmodelled)} template set(s) compile to code the projection does not cover "
@@ -441,9 +470,10 @@ def run(ck):
     fuel = 2 if quick else 3
 
     pool = ThreadPoolExecutor(12)
-    # TLC run A: as extracted - which behaviours leave a generator open?
-    fa = pool.submit(core.run_tlc, PID, "AsyncGen", cfg_mc(fuel, False, []), workers=8, env=env, name="asis",
-                     timeout=3000)
+    # TLC run A: the structures as extracted, C36_AllClosedAtTaskEnd as an invariant.  (If it is violated TLC
+    # stops at the first counterexample; the per-structure leak report is then produced by a second pass.)
+    fa = pool.submit(core.run_tlc, PID, "AsyncGen", cfg_mc(fuel, False, ["C36_AllClosedAtTaskEnd"]), workers=8, env=env,
+                     name="asis", timeout=3000)
     # TLC run B: idealised design (abandoned loops close their generator): the invariant holds for every structure
     fb = pool.submit(core.run_tlc, PID, "AsyncGen", cfg_mc(fuel, True, ["C36_AllClosedAtTaskEnd"]), workers=6, env=env,
                      name="ideal", coverage=quick, timeout=3000)
@@ -486,30 +516,40 @@ def run(ck):
     futs = [pool.submit(validate_traces, ck, d, structures, b, 5 if quick else 2, f"tr{i}") for i, b in enumerate(batches)]
 
     ra = fa.result()
-    ck.add_tlc(ra, "AsyncGen as extracted (leak report)")
     predicted = {}
-    for line in sorted(set(ra.printed())):
-        if not line.startswith("{"):
-            continue
-        b = json.loads(line)
-        for short in b["leaked"]:
-            predicted.setdefault(b["pid"], set()).add((b["mode"], b["how"], short))
-    # the spec's verdict per structure is itself a finding about the generated code
-    for pid, leaks in sorted(predicted.items()):
-        p = progs[pid - 1]
-        for mode, how, short in sorted(leaks):
-            ck.violation(
-                {"kind": "structure", "templates": p["templates"], "mode": mode, "how": how, "leaked": short,
-                 "sites": [s for s in site_table(structures[pid - 1]) if not s["guarded"]]},
-                f"TLC: C36_AllClosedAtTaskEnd is violated for the structure extracted from the generated code of "
-                f"{p['templates']['main']!r}: {short} can be left open ({mode}, {how})",
-                {"kind": "unclosed-generator", "site": site_kind(short), "how": how},
-            )
-    safe = [i for i in range(1, len(progs) + 1) if i not in predicted]
-    # TLC run C: the invariant proper, on every structure for which run A reported no leaking behaviour
-    (d / "progs_safe.json").write_text(json.dumps([structures[i - 1] for i in safe]))
-    fc = pool.submit(core.run_tlc, PID, "AsyncGen", cfg_mc(fuel, False, ["C36_AllClosedAtTaskEnd"]), workers=8,
-                     env={"PROG_FILE": str(d / "progs_safe.json")}, name="safe", timeout=3000)
+    if ra.ok:
+        ck.add_tlc(ra, f"AsyncGen as extracted, all {len(progs)} structures: C36_AllClosedAtTaskEnd")
+        safe = list(range(1, len(progs) + 1))
+        fc = None
+    else:
+        # some structure can leave a generator open: collect TLC's verdict per structure (leak report) ...
+        ck.add_tlc(ra, "AsyncGen as extracted: C36_AllClosedAtTaskEnd", expect_ok=False)
+        rr = core.run_tlc(PID, "AsyncGen", cfg_mc(fuel, False, []), workers=8, env=env, name="report", timeout=3000)
+        ck.add_tlc(rr, "AsyncGen as extracted (leak report)")
+        for line in sorted(set(rr.printed())):
+            if not line.startswith("{"):
+                continue
+            b = json.loads(line)
+            for short in b["leaked"]:
+                predicted.setdefault(b["pid"], set()).add((b["mode"], b["how"], short))
+        if not predicted:
+            ck.add_tlc(ra, "AsyncGen as extracted: invariants")  # another invariant failed: report it as such
+        # the spec's verdict per structure is itself a finding about the generated code
+        for pid, leaks in sorted(predicted.items()):
+            p = progs[pid - 1]
+            for mode, how, short in sorted(leaks):
+                ck.violation(
+                    {"kind": "structure", "templates": p["templates"], "mode": mode, "how": how, "leaked": short,
+                     "sites": [s for s in site_table(structures[pid - 1]) if not s["guarded"]]},
+                    f"TLC: C36_AllClosedAtTaskEnd is violated for the structure extracted from the generated code of "
+                    f"{p['templates']['main']!r}: {short} can be left open ({mode}, {how})",
+                    {"kind": "unclosed-generator", "site": site_kind(short), "how": how},
+                )
+        # ... and check the invariant proper on every structure without a reported leak
+        safe = [i for i in range(1, len(progs) + 1) if i not in predicted]
+        (d / "progs_safe.json").write_text(json.dumps([structures[i - 1] for i in safe]))
+        fc = pool.submit(core.run_tlc, PID, "AsyncGen", cfg_mc(fuel, False, ["C36_AllClosedAtTaskEnd"]), workers=8,
+                         env={"PROG_FILE": str(d / "progs_safe.json")}, name="safe", timeout=3000)
 
     # property-level verdict on the real runs
     observed = {}
@@ -519,6 +559,11 @@ def run(ck):
             leaked = judge_run(ck, p, r, pred, stats)
             for s_ in leaked:
                 observed.setdefault(pi, set()).add((r.mode, r.how, s_[0]))
+    # template sets whose generated code could not be projected are still executed and judged
+    for p in unmodelled_progs:
+        for r in all_runs(p, 30 if quick else 60):
+            nruns += 1
+            judge_run(ck, p, r, set(), stats)
     ck.traces += nruns
     ck.evaluations += nruns
 
@@ -526,8 +571,9 @@ def run(ck):
     ck.add_tlc(rb, "AsyncGen idealised design: C36_AllClosedAtTaskEnd")
     if quick:
         ck.require_coverage(rb, ACTIONS)  # vacuity guard (same actions as run A; coverage slows TLC, so off the critical path)
-    rc = fc.result()
-    ck.add_tlc(rc, f"AsyncGen as extracted, {len(safe)} structures without reported leak: C36_AllClosedAtTaskEnd")
+    if fc is not None:
+        rc = fc.result()
+        ck.add_tlc(rc, f"AsyncGen as extracted, {len(safe)} structures without reported leak: C36_AllClosedAtTaskEnd")
 
     # code->spec
     rejected = []
@@ -603,12 +649,13 @@ def replay(ck, rec):
     c = rec["case"]
     fd = core.VERIF / "findings.d" / "C36.json"
     if fd.exists():
-        ck._known += [k for k in json.loads(fd.read_text()) if k.get("status") == "open"]
+        have = {k["id"] for k in core.load_known()}
+        ck._known += [k for k in json.loads(fd.read_text()) if k.get("status") == "open" and k["id"] not in have]
     prog = {"templates": c["templates"]}
     env = make_env(prog["templates"])
     if c["kind"] == "structure":
         # re-extract and let TLC decide again
-        ex = Extractor(env, prog["templates"])
+        ex = Extractor(env, prog["templates"], data())
         st = ex.program("main")
         d = core.workdir(PID, "replay")
         (d / "progs.json").write_text(json.dumps([st]))
